@@ -89,10 +89,11 @@ PROPS = {
             {'template': 'units/c07_lower.rs.in', 'modes': [[]], 'canary': True},
             {'template': 'units/c07_compat.rs.in', 'modes': [[]], 'canary': True},
             {'template': 'units/c07_check_assign.rs.in', 'modes': [[]], 'canary': True},
+            {'template': 'units/c07_const_eval.rs.in', 'modes': [[]], 'canary': True},
         ],
         'kani': [],
         'not_covered': [
-            'const_eval\'s use of the policy; the checker\'s call-argument position (known finding); in check_binary / check_assignment / check_return the recursive check_expr of the operands, resolve_type and the symbol table are assumed contracts (types_compatible is proved on int / float in c07_compat); in the compound-assignment arms (checker, lowering) and the Binary arm of the lowering the scope lookup and the check/lowering of the operand expressions are assumed contracts',
+            'the checker\'s call-argument position (known finding); in const_eval the recursive evaluation of the operands is the arm\'s input; in check_binary / check_assignment / check_return the recursive check_expr of the operands, resolve_type and the symbol table are assumed contracts (types_compatible is proved on int / float in c07_compat); in the compound-assignment arms (checker, lowering) and the Binary arm of the lowering the scope lookup and the check/lowering of the operand expressions are assumed contracts',
             'in emit_binop_expr the recursive emit_expr of the operands is an assumed contract; quote! is modelled by its literal tokens and spliced values (trusted)',
         ],
         # functions that cannot be brought within the verifier's reach (methods on the checker's state): a bounded
